@@ -20,7 +20,7 @@ use sha2::{Digest, Sha256};
 use crate::repo::{FILE_TYPES, MemBackend, MemSource, RepoHandle, SrcEntry, SrcKind, Store, ft_idx};
 use crate::util::{Rng, Stats, hex, unhex};
 use rustic_core::repofile::{
-    BlobType, FileType, IndexBlob, IndexFile, IndexPack, MasterKey, Metadata, Node, NodeType, SnapshotFile, Tree,
+    BlobType, DeleteOption, FileType, IndexBlob, IndexFile, IndexPack, MasterKey, Metadata, Node, NodeType, SnapshotFile, Tree,
 };
 use rustic_core::verif::check as hk;
 use rustic_core::{
@@ -258,7 +258,14 @@ pub fn abstract_state_with(key: &MasterKey, store: &Store, meta: bool) -> Vec<St
             None => snaps_ok = false,
             Some(s) => {
                 let auth = sha_hex(&b) == id.to_hex().as_str();
-                stoks.push(format!("s:{}:{}", it.id(s.tree.to_hex().as_str()), u8::from(auth)));
+                // the delete mark of the snapshot file (`K` = delete-never, `A<unix seconds>` = delete-after); snapshots
+                // without one keep the 3-field form
+                let mark = match &s.delete {
+                    DeleteOption::NotSet => String::new(),
+                    DeleteOption::Never => ":K".to_string(),
+                    DeleteOption::After(t) => format!(":A{}", t.timestamp().as_second()),
+                };
+                stoks.push(format!("s:{}:{}{mark}", it.id(s.tree.to_hex().as_str()), u8::from(auth)));
             }
         }
     }
@@ -901,6 +908,161 @@ pub fn build_pruned(rng: &mut Rng, stats: &mut Stats) -> Option<Built> {
     Some(Built { h, expected })
 }
 
+fn zoned_utc(secs: i64) -> rustic_core::jiff::Zoned {
+    rustic_core::jiff::Timestamp::from_second(secs).unwrap().to_zoned(rustic_core::jiff::tz::TimeZone::UTC)
+}
+
+/// Snapshots carrying DELETE MARKS (`backup --delete-after` / `--delete-never`): 3–5 backups in random mark order — always one
+/// whose delete-after time has long passed (snapshot time 2000, delete-after 2001 … 2019), one whose delete-after time is far in
+/// the future (year 2100+), one `delete-never`, optionally plain ones.  Every backup has a directory of its own (`only<k>/`, 1–2
+/// files of random content, so data blobs, that directory's tree and the root tree are referenced by this snapshot alone) next
+/// to a shared, unchanged part.  Nobody has run `forget`: all of them are listed and restorable.
+pub fn build_delete_marks(rng: &mut Rng, stats: &mut Stats) -> Option<Built> {
+    let (cfg, v1) = meta_cfg(rng, stats);
+    let h = init_repo(&cfg, v1)?;
+    let mut marks: Vec<u8> = vec![0, 1, 2]; // 0 = after (past), 1 = after (future), 2 = never, 3 = not set
+    for _ in 0..rng.below(3) {
+        marks.push(*rng.pick(&[0u8, 3, 3]));
+    }
+    for i in (1..marks.len()).rev() {
+        marks.swap(i, rng.below(i as u64 + 1) as usize);
+    }
+    let shared = [SrcEntry::file(&[b"shared", b"s0"], &rng.bytes(300)), SrcEntry::file(&[b"shared", b"s1"], &rng.bytes(2500))];
+    for (k, m) in marks.iter().enumerate() {
+        let mut es = shared.to_vec();
+        let dir = format!("only{k}").into_bytes();
+        for j in 0..1 + rng.below(2) {
+            let len = *rng.pick(&[40usize, 700, 3000]);
+            es.push(SrcEntry::file(&[&dir, format!("u{j}").as_bytes()], &rng.bytes(len)));
+        }
+        let mut snap = SnapshotFile::default();
+        match m {
+            0 => {
+                // saved in 2000 with a delete-after time between 2001 and 2019
+                snap.time = zoned_utc(946_684_800 + rng.below(1_000_000) as i64);
+                snap.delete = DeleteOption::After(zoned_utc(978_307_200 + rng.below(600_000_000) as i64));
+                stats.hit("snap.delete-after.passed");
+            }
+            1 => {
+                snap.delete = DeleteOption::After(zoned_utc(4_102_444_800 + rng.below(600_000_000) as i64));
+                stats.hit("snap.delete-after.future");
+            }
+            2 => {
+                snap.delete = DeleteOption::Never;
+                stats.hit("snap.delete-never");
+            }
+            _ => stats.hit("snap.delete-not-set"),
+        }
+        let repo = open_nc(&h).ok()?.to_indexed_ids().ok()?;
+        let saved = repo.archive(&BackupOptions::default(), &MemSource::new(es), snap, &[PathBuf::from(crate::repo::SRC_ROOT)]).ok()?;
+        // the mark must really be in the stored file
+        let want = match m {
+            0 | 1 => matches!(saved.delete, DeleteOption::After(_)),
+            2 => matches!(saved.delete, DeleteOption::Never),
+            _ => matches!(saved.delete, DeleteOption::NotSet),
+        };
+        if !want {
+            stats.hit("snap.delete-mark-lost");
+            return None;
+        }
+    }
+    stats.hit("repo.delete-marks");
+    let expected = all_digests(&h).ok()?;
+    if expected.len() != marks.len() {
+        return None;
+    }
+    Some(Built { h, expected })
+}
+
+/// PARTLY USED packs: a first backup of `keep/` (2–4 files) and `drop/` (1–3 files), a second one in which `drop/` is gone and a
+/// new directory has appeared, then the first snapshot is forgotten and NOBODY PRUNES.  With pack sizes that put several blobs
+/// into one pack (the default, or 6000 bytes) the data packs of the first backup hold chunks of `keep/` (still used) next to
+/// chunks of `drop/` (used by no snapshot any more), and its tree pack holds the tree of `keep/` (used) next to the first root
+/// tree and the tree of `drop/` (unused).  Files are stored in path order, so the used and the unused blobs of a pack are its
+/// first resp. last ones or the other way round (`drop` < `keep` < `later`): optionally the dropped directory sorts last.
+pub fn build_partly_used(rng: &mut Rng, stats: &mut Stats) -> Option<Built> {
+    let mut cfg = ConfigOptions::default();
+    let v2 = rng.chance(2, 3);
+    stats.hit(if v2 { "cfg.v2" } else { "cfg.v1" });
+    if v2 {
+        cfg.set_compression = Some(*rng.pick(&[0i32, 3, -3]));
+    }
+    if rng.chance(1, 2) {
+        cfg.set_datapack_size = Some(bytesize::ByteSize(6000));
+        cfg.set_treepack_size = Some(bytesize::ByteSize(4000));
+        stats.hit("cfg.tiny-packs");
+    }
+    cfg.set_chunker = Some(rustic_core::repofile::Chunker::FixedSize);
+    cfg.set_chunk_size = Some(bytesize::ByteSize(*rng.pick(&[512u64, 1024, 4096])));
+    let h = init_repo(&cfg, !v2)?;
+    let dropped: &[u8] = if rng.chance(1, 2) { b"drop" } else { b"zdrop" };
+    let mut keep = Vec::new();
+    for j in 0..2 + rng.below(3) {
+        let len = *rng.pick(&[40usize, 700, 1500]);
+        keep.push(SrcEntry::file(&[b"keep", format!("k{j}").as_bytes()], &rng.bytes(len)));
+    }
+    let mut first = keep.clone();
+    for j in 0..1 + rng.below(3) {
+        let len = *rng.pick(&[40usize, 700, 1500]);
+        first.push(SrcEntry::file(&[dropped, format!("d{j}").as_bytes()], &rng.bytes(len)));
+    }
+    let mut second = keep.clone();
+    second.push(SrcEntry::file(&[b"later", b"l0"], &rng.bytes(900)));
+    let mut ids = vec![];
+    for es in [first, second] {
+        let repo = open_nc(&h).ok()?.to_indexed_ids().ok()?;
+        ids.push(repo.archive(&BackupOptions::default(), &MemSource::new(es), SnapshotFile::default(), &[PathBuf::from(crate::repo::SRC_ROOT)]).ok()?.id);
+    }
+    let repo = open_nc(&h).ok()?;
+    repo.delete_snapshots(&[ids[0]]).ok()?;
+    // how many packs hold blobs the remaining snapshot uses next to blobs nothing uses any more?
+    let n = partly_used_packs(&h)?;
+    stats.hit(format!("repo.partly-used-packs.{}", Stats::bucket(n)));
+    if n == 0 {
+        return None;
+    }
+    stats.hit("repo.forgotten-not-pruned(partly-used-packs)");
+    let expected = all_digests(&h).ok()?;
+    Some(Built { h, expected })
+}
+
+/// number of indexed packs holding both a blob reachable from a stored snapshot and a blob that is not
+fn partly_used_packs(h: &RepoHandle) -> Option<usize> {
+    let store = h.be.store();
+    let packs = index_packs(&h.key, &store);
+    let loc: BTreeMap<String, (Id, u32, u32, bool)> = packs
+        .iter()
+        .flat_map(|p| p.blobs.iter().map(|b| (b.id.to_hex().to_string(), (*p.id, b.location.offset, b.location.length, b.location.uncompressed_length.is_some()))))
+        .collect();
+    let read = |id: &str| -> Option<Vec<u8>> {
+        let (pack, off, len, c) = loc.get(id)?;
+        let data = store.get(&(ft_idx(FileType::Pack), *pack))?;
+        let raw = hk::decrypt(&h.key, data.get(*off as usize..(*off + *len) as usize)?)?;
+        if *c { hk::zstd_decode(&raw) } else { Some(raw) }
+    };
+    let mut used: BTreeSet<String> = BTreeSet::new();
+    let mut queue: Vec<String> = files_of(&store, FileType::Snapshot)
+        .iter()
+        .filter_map(|(_, b)| decode_file(&h.key, b).and_then(|p| serde_json::from_slice::<SnapshotFile>(&p).ok()))
+        .map(|s| s.tree.to_hex().to_string())
+        .collect();
+    while let Some(t) = queue.pop() {
+        if !used.insert(t.clone()) {
+            continue;
+        }
+        let tree: Tree = serde_json::from_slice(&read(&t)?).ok()?;
+        for n in &tree.nodes {
+            if let Some(st) = n.subtree {
+                queue.push(st.to_hex().to_string());
+            }
+            for c in n.content.iter().flatten() {
+                _ = used.insert(c.to_hex().to_string());
+            }
+        }
+    }
+    Some(packs.iter().filter(|p| p.blobs.iter().any(|b| used.contains(b.id.to_hex().as_str())) && p.blobs.iter().any(|b| !used.contains(b.id.to_hex().as_str()))).count())
+}
+
 fn index_packs_marked(key: &MasterKey, store: &Store) -> usize {
     let mut n = 0;
     for (_, b) in files_of(store, FileType::Index) {
@@ -958,7 +1120,15 @@ fn damages(b: &Built, rng: &mut Rng, thorough: bool) -> Vec<(String, Store)> {
                     }
                     let mut sorted = p.blobs.clone();
                     sorted.sort_by_key(|b| b.location.offset);
-                    for bl in sorted.first().into_iter().chain(sorted.last()) {
+                    // every blob of a pack of up to 8 blobs; of a larger one the first, the last and 4 random ones (a pack can
+                    // hold blobs that some snapshot uses next to blobs that nothing uses any more)
+                    let mut picks: Vec<usize> = if sorted.len() <= 8 { (0..sorted.len()).collect() } else { vec![0, sorted.len() - 1] };
+                    if sorted.len() > 8 {
+                        for _ in 0..4 {
+                            picks.push(rng.below(sorted.len() as u64) as usize);
+                        }
+                    }
+                    for bl in picks.into_iter().map(|i| &sorted[i]) {
                         // past the 16-byte nonce, inside the ciphertext
                         blob_poss.push(bl.location.offset as usize + 16 + (bl.location.length as usize).saturating_sub(32) / 2);
                     }
@@ -1061,13 +1231,19 @@ pub fn line(label: &str, key: &MasterKey, store: &Store, expected: &BTreeMap<Str
 }
 
 pub fn generate(thorough: bool, rng: &mut Rng, ops: &mut Vec<String>, stats: &mut Stats) {
-    let n_repos = if thorough { 60 } else { 8 };
+    let n_repos = if thorough { 60 } else { 10 };
     let per_repo_cap = if thorough { 300 } else { 110 };
     for r in 0..n_repos {
         // the first repository of every run is the stdin-style one (packs holding only a root tree)
         // … the third one (and every fourth after it) has a forget/prune history with packs marked for deletion
         let built = if r == 0 {
             build_stdin_pair(stats, rng.chance(1, 2))
+        } else if r % 10 == 8 {
+            // snapshots with delete marks (delete-after passed / in the future, delete-never), each holding data of its own
+            build_delete_marks(rng, stats)
+        } else if r % 10 == 9 {
+            // backup, backup, forget the first, no prune: packs holding used next to unused blobs
+            build_partly_used(rng, stats)
         } else if r % 4 == 2 {
             build_pruned(rng, stats)
         } else if r == 3 {
